@@ -20,5 +20,25 @@ a["Replace"].update(b["Replace"]); json.dump(a,open(sys.argv[3],"w"),indent=1)
 PY
   OVL="$WORK/c05.overlay.merged.json"
 fi
-(cd "$VERIF_ROOT" && go build -tags verif -overlay "$OVL" -o "$WORK/bin/c05" ./checks/c05) || exit 2
+# Fixed-array members: no struct of tars/protocol/res has one, so the working-tree
+# tars2go (built with the same overlay) generates checks/c05/c05arrays/C05Arrays.tars
+# now, and its output joins package verif/checks/c05/c05arrays through the overlay.
+# If the generator cannot be built or fails, the check runs without these entries.
+TAGS="verif"
+GEN="$WORK/c05/gen"
+rm -rf "$GEN"; mkdir -p "$GEN"
+if (cd "$REPO/tars/tools/tars2go" && go build -overlay "$OVL" -o "$GEN/tars2go" .) 2>"$GEN/build.log" &&
+   (cd "$GEN" && cp "$VERIF_ROOT/checks/c05/c05arrays/C05Arrays.tars" . &&
+    ./tars2go -without-trace=true -add-servant=false -tarsPath github.com/TarsCloud/TarsGo/tars -module verif/checks/c05 C05Arrays.tars) >"$GEN/gen.log" 2>&1 &&
+   [ -f "$GEN/c05arrays/C05Arrays.go" ]; then
+  python3 - "$OVL" "$GEN/c05arrays/C05Arrays.go" "$VERIF_ROOT/checks/c05/c05arrays/zz_generated.go" "$WORK/c05.overlay.gen.json" <<'PY' || exit 2
+import json,sys
+a=json.load(open(sys.argv[1])); a["Replace"][sys.argv[3]]=sys.argv[2]; json.dump(a,open(sys.argv[4],"w"),indent=1)
+PY
+  OVL="$WORK/c05.overlay.gen.json"
+  TAGS="verif c05gen"
+else
+  echo "note: tars2go did not produce code for C05Arrays.tars (see $GEN/*.log): fixed-array entries left out" >&2
+fi
+(cd "$VERIF_ROOT" && go build -tags "$TAGS" -overlay "$OVL" -o "$WORK/bin/c05" ./checks/c05) || exit 2
 exec "$WORK/bin/c05" "$@"
